@@ -1,5 +1,5 @@
 PROP = dict(
-        pkg="c07", level="property_based",
+        pkg="c07", level="exploration",
         rule="C07: unoptimized vs optimized plan of the same compiled job over generated (program, input, declared sort order, reader) cases",
         assumptions=[
             "a declared sort key means: the input is sorted by the comparator the lake uses for pool keys (zbuf.NewComparatorNullsMax: nulls and missing keys last for asc, first for desc); the harness really sorts the input that way",
